@@ -1740,7 +1740,7 @@ fn deep_op_strategy() -> BoxedStrategy<Op> {
         8 => any::<u16>().prop_map(Op::Deliver),
         3 => any::<u16>().prop_map(Op::Duplicate),
         2 => any::<u16>().prop_map(Op::Drop),
-        5 => (any_slot.clone(), any_slot.clone(), prop_oneof![3 => Just(0u16), 1 => any::<u16>()]).prop_map(|(node, peer, member)| Op::CatchUp { node, peer, member }),
+        9 => (any_slot.clone(), any_slot.clone(), prop_oneof![3 => Just(0u16), 1 => any::<u16>()]).prop_map(|(node, peer, member)| Op::CatchUp { node, peer, member }),
         2 => any::<u16>().prop_map(Op::Join),
         1 => (any_slot.clone(), any_slot).prop_map(|(a, b)| Op::Cut { a, b }),
     ]
@@ -1777,9 +1777,9 @@ fn phased_ops_strategy() -> BoxedStrategy<Vec<Op>> {
         prop_oneof![
             4 => (1u16..4, 1u16..4).prop_map(|(a, b)| Op::Handshake { a: slot_sel(a), b: slot_sel(b) }),
             2 => (1u16..4, 0u16..1).prop_map(|(a, b)| Op::Handshake { a: slot_sel(a), b: slot_sel(b) }),
-            1 => (1u16..4, 0u16..4).prop_map(|(node, peer)| Op::CatchUp { node: slot_sel(node), peer: slot_sel(peer), member: 0 }),
+            3 => (1u16..4, 0u16..4).prop_map(|(node, peer)| Op::CatchUp { node: slot_sel(node), peer: slot_sel(peer), member: 0 }),
         ],
-        1..4,
+        1..5,
     );
     let late = proptest::collection::vec(prop_oneof![4 => any::<u16>().prop_map(Op::Deliver), 1 => any::<u16>().prop_map(Op::Duplicate)], 0..4);
     let noise = || proptest::collection::vec(deep_op_strategy(), 0..2);
